@@ -180,6 +180,46 @@ theorem C09_goroutines_reviewed :
       ("history.(*Handler).FetchIQ", false), ("muc.(*Channel).LeavePresence", true),
       ("muc.(*Channel).JoinPresence", true)] := by decide +kernel
 
+/-! ## Iterators that turn pages
+
+`Serve` hands a response to the waiting helper and reads nothing else until that response is
+closed.  An iterator whose `Next` requests the next page must therefore close the page it
+holds *before* it sends the request (otherwise the helper waits for a reply Serve will never
+read and Serve waits for a Close that never comes).  Regenerated: every request sent from a
+`Next` method and whether a `Close()` on something the iterator holds precedes it. -/
+theorem C09_page_turns_close_first :
+    (match XmppModel.Generated.C09.pageTurns with
+      | some l => !l.isEmpty && l.all (fun p => p.2.2)
+      | none => false) = true := by decide +kernel
+
+/-! ## Size-dependent partial operations that were accepted
+
+A `make`, index, slice or destination-size site that an idiom or the allow list accepts is
+accepted *for the size / index expression that was reviewed*.  The expressions are regenerated
+and compared here: editing one (a scratch buffer of a fixed size instead of one sized from the
+packet, say) resurfaces the site for review even though the new form may look harmless to the
+idioms. -/
+theorem C09_accepted_sizes_reviewed :
+    XmppModel.Generated.C09.acceptedSizes = [
+  ("xmpp.(*stanzaEncoder).EncodeToken", "make", "make([]xml.Attr, 0, len(tok.Attr) + 2)"),
+  ("xmpp.(*stanzaEncoder).EncodeToken", "make", "make([]xml.Attr, 0, len(tok.Attr))"),
+  ("xmpp.(*Session).SendIQ", "index(allow)", "start.Attr[idx]"),
+  ("xmpp.(*Session).SendMessage", "index(allow)", "start.Attr[idx]"),
+  ("xmpp.(*Session).SendPresence", "index(allow)", "start.Attr[idx]"),
+  ("disco.walkItem", "index(allow)", "items[itemIdx]"),
+  ("disco.walkItem", "slice(allow)", "items[last + 1:]"),
+  ("disco.appendItems", "index(allow)", "items[itemIdx]"),
+  ("ibb.newConn", "make", "make([]byte, 0, blockSize)"),
+  ("ibb.handlePayload", "make(allow)", "make([]byte, base64.StdEncoding.DecodedLen(len(p.Data)))"),
+  ("ibb.handlePayload", "dstsize", "base64.StdEncoding.Decode(data, p.Data)"),
+  ("ibb.handlePayload", "slice(allow)", "data[:n]"),
+  ("attr.randomID", "make(allow)", "make([]byte, (n / 2) + (n & 1))"),
+  ("attr.randomID", "slice(allow)", "fmt.Sprintf(\"%x\", b)[:n]"),
+  ("marshal.(*elementWriter).EncodeToken", "make", "make([]xml.Attr, 0, len(ew.start.Attr) + len(tok.Attr))"),
+  ("mux.(*bufReader).Token", "index(allow)", "r.buf[o]"),
+  ("roster.(*itemMarshaler).Token", "index(allow)", "m.items[0]"),
+  ("roster.(*itemMarshaler).Token", "slice(allow)", "m.items[1:]")] := by decide +kernel
+
 /-! ## Known finding: the SCRAM client of the SASL dependency (negotiation, before Serve)
 
 Full-strength statement (false for mellium.im/sasl v0.3.2, see `Model/ScramLoop.lean`):
